@@ -291,6 +291,13 @@ impl StreamingBody {
         Self { body, cap }
     }
 
+    /// Not part of the public API. Used only by verification harnesses.
+    #[cfg(dropshot_verif)]
+    #[doc(hidden)]
+    pub fn __verif_new(body: crate::Body, cap: usize) -> Self {
+        Self { body, cap }
+    }
+
     /// Not part of the public API. Used only for doctests.
     #[doc(hidden)]
     pub fn __from_bytes(data: Bytes) -> Self {
@@ -383,6 +390,16 @@ impl StreamingBody {
                 ))?;
                 let Ok(buf) = frame.into_data() else { continue }; // skip trailers
                 let len = buf.len();
+                #[cfg(dropshot_verif)]
+                crate::verif::emit(
+                    "body_frame",
+                    serde_json::json!({
+                        "len": len,
+                        "read": bytes_read,
+                        "cap": self.cap,
+                        "over": bytes_read + len > self.cap,
+                    }),
+                );
 
                 if bytes_read + len > self.cap {
                     http_dump_body(&mut self.body).await.map_err(|e| {
